@@ -13,13 +13,18 @@
  *   enum E              enumerate(E)
  *   filter <p> E        predicate number p
  *   map <f> E           function number f
+ *   arrh|listh|tuph <hist>   Array / List / heap Tuple after a mutation history, ops separated by "/":
+ *        n<ints> (first op only: construct with these elements)  p<v> push  o pop  x<i> pop_at  r<v> rem
+ *        a<i>:<v> push_at  z<n> resize  c<ints> concat  s sort          ("-" = no operation)
+ *   tabh|treeh <hist>        Table / Tree after  k<key> set(key, 10*key)  r<key> rem  z<n> resize
+ *   an operation that raises is counted (section hist=<count>) and the walk goes on with the container as it is
  *   <ints>: "-" (empty) or comma separated ints.   tupr: Tuple of pool objects named by id
  *   (the same id twice = the same pointer twice; value of object id is id).
  * Views are built exactly as the stack macros of Cello.h build them (header_init + the
  * *_stack functions), but in malloc'ed memory, so no collector is involved.
  *
  * Transcript (one line):
- *   len=<n>|E:<exn>;leaf=<v>,..[/<v>,..];fwd=<v>,<v>,..;bwd=<v>,..;get=<v>,..|-;gx=<v>,..|-;sl=<start>:<stop>:<step>,..;tab=<slot>,..
+ *   len=<n>|E:<exn>;leaf=<v>,..[/<v>,..];fwd=<v>,<v>,..;bwd=<v>,..;get=<v>,..|-;gx=<v>,..|-;sl=<start>:<stop>:<step>,..;tab=<slot>,..;hist=<ops that raised>
  *   leaf = forward walk of every Table/Tree leaf of the expression on its own (prefix order, "/" separated)
  *   v = integer or (v v ..) for a Tuple; walks are cut off (",RUNAWAY") after 2*len+4 steps
  *   (len capped; if len is not available: 2*(total base size)+4); an exception ends a section
@@ -28,6 +33,7 @@
 #include "Table.c"
 #include "hcommon.h"
 
+static int HIST_RAISED;
 enum { K_ARR, K_LIST, K_TUP, K_TUPR, K_TAB, K_TREE, K_RANGE, K_SLICE, K_REV, K_ZIP, K_ENUM, K_FILTER, K_MAP };
 #define MAXSUB 8
 struct Ex { int kind; var obj; int haslen, hasget; size_t basesz; struct Ex* sub[MAXSUB]; int nsub; };
@@ -119,6 +125,41 @@ static var mkzip(var* its, size_t n) {
 #define MAXN 4096
 static struct Ex* NODES[256]; static int NNODES;
 
+/* one operation of a mutation history on a sequence container (kind 'a' Array, 'l' List, 't' heap Tuple) */
+static void seq_op(char kind, var x, char* op) {
+  static int64_t ys[MAXN];
+  var elem_of(int64_t v) { return kind == 't' ? (var)new_raw(Int, $I(v)) : (var)mkint(v); }
+  try {
+    switch (op[0]) {
+      case 'p': push(x, elem_of(strtoll(op + 1, NULL, 10))); break;
+      case 'o': pop(x); break;
+      case 'x': pop_at(x, $I(strtoll(op + 1, NULL, 10))); break;
+      case 'r': rem(x, $I(strtoll(op + 1, NULL, 10))); break;
+      case 'a': { char* c = strchr(op, ':'); if (!c) break; *c = 0;
+                  push_at(x, elem_of(strtoll(c + 1, NULL, 10)), $I(strtoll(op + 1, NULL, 10))); break; }
+      case 'z': resize(x, (size_t)strtoull(op + 1, NULL, 10)); break;
+      case 'c': { size_t n = parse_ints(op[1] ? op + 1 : NULL, ys, MAXN);
+                  var* a = malloc(sizeof(var) * (n + 2));
+                  var other;
+                  if (kind == 't') { for (size_t i = 0; i < n; i++) a[i] = new_raw(Int, $I(ys[i])); other = mktuple(a, n); }
+                  else { a[0] = Int; for (size_t i = 0; i < n; i++) a[i + 1] = mkint(ys[i]); other = new_raw_with(Array, mktuple(a, n + 1)); }
+                  concat(x, other); break; }
+      case 's': sort(x); break;
+      default: break;
+    }
+  } catch (e) { HIST_RAISED++; }
+}
+static void map_op(var x, char* op) {
+  try {
+    switch (op[0]) {
+      case 'k': { int64_t k = strtoll(op + 1, NULL, 10); set(x, $I(k), $I(k * 10)); break; }
+      case 'r': rem(x, $I(strtoll(op + 1, NULL, 10))); break;
+      case 'z': resize(x, (size_t)strtoull(op + 1, NULL, 10)); break;
+      default: break;
+    }
+  } catch (e) { HIST_RAISED++; }
+}
+
 static struct Ex* parse(void) {
   char* k = tok();
   if (!k) return NULL;
@@ -157,6 +198,39 @@ static struct Ex* parse(void) {
       e->kind = K_TREE;
       e->obj = new_raw(Tree, Int, Int);
       for (size_t i = 0; i < n; i++) set(e->obj, $I(xs[i]), $I(xs[i] * 10));
+    }
+    return e;
+  }
+  if (!strcmp(k, "arrh") || !strcmp(k, "listh") || !strcmp(k, "tuph") || !strcmp(k, "tabh") || !strcmp(k, "treeh")) {
+    char* h = tok();
+    e->haslen = 1; e->basesz = 64;
+    char kind = k[0] == 'a' ? 'a' : k[0] == 'l' ? 'l' : !strcmp(k, "tuph") ? 't' : !strcmp(k, "tabh") ? 'T' : 'R';
+    e->kind = kind == 'a' ? K_ARR : kind == 'l' ? K_LIST : kind == 't' ? K_TUP : kind == 'T' ? K_TAB : K_TREE;
+    e->hasget = (kind == 'a' || kind == 'l' || kind == 't');
+    char* q = (h && strcmp(h, "-")) ? h : NULL; char* op;
+    int first = 1;
+    if (kind == 'T') e->obj = new_raw(Table, Int, Int);
+    if (kind == 'R') e->obj = new_raw(Tree, Int, Int);
+    while (1) {
+      op = q ? next_tok(&q, '/') : NULL;
+      if (first && e->hasget) {
+        /* construction, with the elements of a leading n<ints> */
+        size_t n = (op && op[0] == 'n') ? parse_ints(op[1] ? op + 1 : NULL, xs, MAXN) : 0;
+        var* a = malloc(sizeof(var) * (n + 2));
+        if (kind == 't') {
+          for (size_t i = 0; i < n; i++) a[i] = new_raw(Int, $I(xs[i]));
+          e->obj = new_raw_with(Tuple, mktuple(a, n));
+        } else {
+          a[0] = Int;
+          for (size_t i = 0; i < n; i++) a[i + 1] = mkint(xs[i]);
+          e->obj = new_raw_with(kind == 'a' ? Array : List, mktuple(a, n + 1));
+        }
+        first = 0;
+        if (op && op[0] == 'n') continue;
+      }
+      first = 0;
+      if (!op) break;
+      if (e->hasget) seq_op(kind, e->obj, op); else map_op(e->obj, op);
     }
     return e;
   }
@@ -243,7 +317,7 @@ static void walk(var x, int backward, size_t cutoff) {
 }
 
 static void one_case(char* line) {
-  CUR = line; NNODES = 0;
+  CUR = line; NNODES = 0; HIST_RAISED = 0;
   struct Ex* volatile e = NULL;
   volatile int built = 0;
   try { e = parse(); built = 1; } catch (ex) { P("build=E:%s", exn_name(ex)); }
@@ -302,6 +376,7 @@ static void one_case(char* line) {
       if (Table_Key_Hash(t, i) == 0) P("_"); else P("%" PRId64, (int64_t)c_int(Table_Key(t, i)));
     }
   }
+  P(";hist=%d", HIST_RAISED);
 }
 
 int main(int argc, char** argv) {
